@@ -57,6 +57,11 @@ CHECKS = {
          'Every call shape of every token-taking api::Owner method (36 shapes, 22 in the guarded class fixed in DESIGN.md) x 6 tokens (right, absent, random, right^bit0, right^bit255, another wallet\'s) x 5 wallet states (fresh, funded, pending send, pending receive, issued invoice) is executed against a wallet opened with a keychain mask; thorough adds every single-bit neighbour of the right token. Oracle: guarded + wrong token => InvalidKeychainMask and byte-identical store (raw LMDB dump + files); any method + wrong token => store unchanged; closed wallet refuses; a 25-step history gives equal projections on a masked and an unmasked wallet with the same seed.',
          'Guarded class is taken from the API documentation (DESIGN.md table), not from the code. start_updater is only checked for an unchanged store.',
          'DESIGN.md §3 C14'),
+ 'C15': ('model_checking',
+         'explicit-state breadth-first search over output-creating histories with a key-path monitor at the backend seam, crash injection, and restore-at-every-state',
+         'BFS over histories of {receive, receive into the non-active account, send with two change outputs, coinbase new / re-request of the unconfirmed candidate / naming an existing output\'s key, issue invoice, build_output, mine, account switch, restart} on two accounts (quick depth 3 or completed depth; thorough depth 5), and a second BFS that adds a crash after each of the first four persistent effects of receive / send / coinbase (depth 2 / 3). A monitor fed by the decorator around the real LMDB backend checks that next_child never returns a path twice, that every output record is written on a path handed out exactly once (or restored by scan), and that a path is never re-bound to a different output except the documented coinbase re-request; every state also checks distinct keys / commitments and restores a fresh wallet from the seed, scans, and requires every account\'s next index to lie beyond every index found on chain.',
+         'Monitor state is carried in the world meta across reopen; paths of outputs spent before a restore are outside the statement.',
+         'DESIGN.md §3 C15'),
  'C16': ('model_checking',
          'exhaustive enumeration of chain states x restore start heights x injected divergences x page sizes with a chain-truth oracle',
          'For every chain/wallet state of a stated set reachable with the C04 alphabet (base states, every operation followed by a block; thorough: every pair) a new wallet is restored from the seed and scanned from every start height 0..tip (restored Unspent records must equal the seed\'s UTXOs at heights >= start in value, height, coinbase flag, lock height and account; spendable total must equal the chain truth), and every single (quick) / pair (thorough) of divergences from {deleted record, Unspent->Spent, Unspent->Locked with dangling entry, stale unconfirmed output, locked by a never-posted tx, cancel-after-post, 2-block reorg} is injected into the original wallet and repaired by scan (with delete_unconfirmed where the statement requires it); afterwards every account\'s books must equal the chain truth, and a second scan must change nothing. Node page sizes 1,2,3 exercise the scan batch loop; thorough adds a 1030-block chain crossing the real 1000-output batch.',
